@@ -102,7 +102,10 @@ InDomain(R) == \A f \in Files : LET F == {x \in Ids : R[x].file = f} IN
                   /\ \A x \in F : Cardinality({y \in F : R[y].spec = R[x].spec}) <= Cardinality(F) \div T.folds
                   /\ \A x \in F : Cardinality({y \in F : R[y].hgrp = R[x].hgrp}) <= Cardinality(F) \div T.folds
 \* <<failed clauses, number of (model, file) folds inside C11's domain>>
-Result == LET R == RowsF IN IF ~InDomain(R) THEN <<{}, -1>>       \* -1: outside the domain, accepted vacuously
+\* Outside the domain the fold construction may refuse the input or produce fewer / empty folds; but a run that DOES hand back
+\* cross-validated scores must still not have scored a PSM with a model that saw its spectrum (info -1 marks these traces).
+LeakClauses == {"SpectrumClosed", "NoLeak", "NoLeakEstimator"}
+Result == LET R == RowsF IN IF ~InDomain(R) THEN (LET C == Check(R).clauses IN <<{c \in LeakClauses : ~C[c]}, -1>>)
           ELSE LET K == Check(R)  C == K.clauses IN <<{c \in DOMAIN C : ~C[c]}, IF T.calibrated /\ T.raised = "" THEN K.ndom ELSE 0>>
 Init == tid \in 1..Len(Traces)
 Spec == Init /\ [][UNCHANGED tid]_tid
